@@ -36,13 +36,37 @@ FIELD_TYPES = [
     ("T", "{p}()", 1),  # the type parameter, instantiated with Probe
     ("u32", "7", 0),
     ("String", "String::from(\"s\")", 0),
+    # uses of the parameters inside containers; U = second type parameter, N = const parameter (2)
+    ("Vec<T>", "vec![{p}(), {p}()]", 2),
+    ("Option<T>", "Some({p}())", 1),
+    ("(T, Probe)", "({p}(), {p}())", 2),
+    ("Box<T>", "Box::new({p}())", 1),
+    ("U", "{p}()", 1),
+    ("Option<U>", "Some({p}())", 1),
+    ("[Probe; N]", "[{p}(), {p}()]", 2),
+    ("std::marker::PhantomData<T>", "std::marker::PhantomData", 0),
+    # deeper nestings
+    ("Option<Vec<Probe>>", "Some(vec![{p}(), {p}(), {p}()])", 3),
+    ("Box<(Probe, Option<Probe>)>", "Box::new(({p}(), Some({p}())))", 2),
+    ("Vec<(Probe, u32)>", "vec![({p}(), 1), ({p}(), 2)]", 2),
+    ("RefCell<Option<Probe>>", "RefCell::new(Some({p}()))", 1),
+    ("std::mem::ManuallyDrop<Probe>", "std::mem::ManuallyDrop::new({p}())", 1),
+    ("Vec<std::mem::ManuallyDrop<Probe>>", "vec![std::mem::ManuallyDrop::new({p}())]", 1),
 ]
 
 
+def uses(ty, param):
+    """Does the field type mention the generic parameter `param` (T, U or N)?"""
+    import re
+    return re.search(r"(?<![A-Za-z0-9_])%s(?![A-Za-z0-9_])" % param, ty) is not None
+
+
 def gen_field(rng, generic):
+    """`generic` is the list of available parameters (subset of T, U, N)."""
+    generic = generic or []
     while True:
         ft = rng.choice(FIELD_TYPES)
-        if ft[0] == "T" and not generic:
+        if any(uses(ft[0], q) and q not in generic for q in ("T", "U", "N")):
             continue
         break
     ignored = rng.random() < 0.3
@@ -58,31 +82,76 @@ def gen_fields(rng, generic, maxn):
     return {"kind": kind, "fields": [gen_field(rng, generic) for _ in range(n)]}
 
 
+GENERIC_SHAPES = [[], [], [], [], ["T"], ["T"], ["T", "U"], ["T", "N"], ["N"], ["T", "U", "N"]]
+
+
 def gen_type(rng, idx):
-    generic = rng.random() < 0.3
+    generic = list(rng.choice(GENERIC_SHAPES))
     if rng.random() < 0.55:
         body = gen_fields(rng, generic, 8)
-        t = {"name": "S%d" % idx, "enum": False, "generic": generic, "variants": [dict(body, name=None, ignored=False)]}
+        t = {"name": "S%d" % idx, "enum": False, "generic": generic, "where": rng.random() < 0.4, "attrs": rng.random() < 0.3, "variants": [dict(body, name=None, ignored=False)]}
     else:
         nv = rng.randint(1, 4)
         vs = []
         for k in range(nv):
             b = gen_fields(rng, generic, 3)
             vs.append(dict(b, name="V%d" % k, ignored=rng.random() < 0.25))
-        t = {"name": "E%d" % idx, "enum": True, "generic": generic, "variants": vs}
-    # a generic parameter must be used by some field, otherwise rustc rejects the definition
-    if generic and not any(f["ty"] == "T" for v in t["variants"] for f in v["fields"]):
-        v = t["variants"][0]
-        if v["kind"] == "unit":
-            v["kind"] = "tuple"
-        v["fields"].append({"ty": "T", "ctor": "{p}()", "probes": 1, "ignored": False})
+        t = {"name": "E%d" % idx, "enum": True, "generic": generic, "where": rng.random() < 0.4, "attrs": rng.random() < 0.3, "variants": vs}
+    fix_generics(t)
     return t
+
+
+def params(t):
+    g = t.get("generic")
+    if g is True:
+        return ["T"]
+    return list(g or [])
+
+
+def fix_generics(t):
+    """Every type parameter must be used by some field, otherwise rustc rejects the definition."""
+    for q in params(t):
+        if not any(uses(f["ty"], q) for v in t["variants"] for f in v["fields"]):
+            v = t["variants"][0]
+            if v["kind"] == "unit":
+                v["kind"] = "tuple"
+            if q == "N":
+                v["fields"].append({"ty": "[Probe; N]", "ctor": "[{p}(), {p}()]", "probes": 2, "ignored": False})
+            else:
+                v["fields"].append({"ty": q, "ctor": "{p}()", "probes": 1, "ignored": False})
+
+
+def generics_decl(t, bounds=True):
+    """(`<...>` after the type name, where clause)"""
+    ps = params(t)
+    if not ps:
+        return "", ""
+    inline, where = [], []
+    for q in ps:
+        if q == "N":
+            inline.append("const N: usize")
+        elif t.get("where") and bounds:
+            inline.append(q)
+            where.append("%s: Trace + 'static" % q)
+        else:
+            inline.append("%s: Trace + 'static" % q if bounds else q)
+    return "<" + ", ".join(inline) + ">", (" where " + ", ".join(where) if where else "")
+
+
+def generics_args(t, concrete):
+    ps = params(t)
+    if not ps:
+        return ""
+    return "<" + ", ".join(("2" if concrete else "N") if q == "N" else ("Probe" if concrete else q) for q in ps) + ">"
 
 
 def fields_src(v):
     out = []
     for i, f in enumerate(v["fields"]):
         attr = "#[rust_cc(ignore)] " if f["ignored"] else ""
+        if v.get("attrs") and i % 2 == 0:
+            # unrelated attributes on fields must not disturb the derive
+            attr = "#[allow(dead_code)] /** doc */ " + attr
         if v["kind"] == "named":
             out.append("%sf%d: %s" % (attr, i, f["ty"]))
         else:
@@ -95,18 +164,23 @@ def fields_src(v):
 
 
 def type_src(t, extra_attr="", derive="Trace, Finalize"):
-    g = "<T: Trace + 'static>" if t["generic"] else ""
+    g, where = generics_decl(t)
     head = "#[derive(%s)]\n%s" % (derive, extra_attr)
+    if t.get("attrs"):
+        head = "/// generated type\n#[allow(dead_code)]\n" + head
+    for v in t["variants"]:
+        v["attrs"] = bool(t.get("attrs"))
     if not t["enum"]:
         v = t["variants"][0]
         body = fields_src(v)
-        semi = ";" if v["kind"] != "named" else ""
-        return "%sstruct %s%s%s%s\n" % (head, t["name"], g, body, semi)
+        if v["kind"] == "named":
+            return "%spub struct %s%s%s%s\n" % (head, t["name"], g, where, body)
+        return "%spub struct %s%s%s%s;\n" % (head, t["name"], g, body, where)
     vs = []
     for v in t["variants"]:
         attr = "#[rust_cc(ignore)] " if v["ignored"] else ""
         vs.append("    %s%s%s," % (attr, v["name"], fields_src(v)))
-    return "%senum %s%s {\n%s\n}\n" % (head, t["name"], g, "\n".join(vs))
+    return "%spub enum %s%s%s {\n%s\n}\n" % (head, t["name"], g, where, "\n".join(vs))
 
 
 def value_src(t, vi):
@@ -118,12 +192,13 @@ def value_src(t, vi):
         parts.append(f["ctor"].replace("{p}", "p"))
         traced = not f["ignored"] and not v["ignored"]
         exp += [traced] * f["probes"]
+    tf = "::" + generics_args(t, True) if params(t) else ""
     if t["enum"]:
-        path = "%s::%s" % (t["name"] + ("::<Probe>" if t["generic"] else ""), v["name"])
+        path = "%s::%s" % (t["name"] + tf, v["name"])
     else:
-        path = t["name"] + ("::<Probe>" if t["generic"] and v["kind"] != "unit" else "")
+        path = t["name"] + (tf if v["kind"] != "unit" else "")
     if v["kind"] == "unit":
-        expr = path if not (t["generic"] and not t["enum"]) else path
+        expr = path
     elif v["kind"] == "tuple":
         expr = "%s(%s)" % (path, ", ".join(parts))
     else:
@@ -293,9 +368,9 @@ def conflict_src(types):
     for t in types:
         attr = "#[rust_cc(unsafe_no_drop)]\n" if t["no_drop"] else ""
         src.append(type_src(t, extra_attr=attr))
-        g = "<T: Trace + 'static>" if t["generic"] else ""
-        ga = "<T>" if t["generic"] else ""
-        src.append("impl%s Drop for %s%s { fn drop(&mut self) {} }\n" % (g, t["name"], ga))
+        g, where = generics_decl(t)
+        ga = generics_args(t, False)
+        src.append("impl%s Drop for %s%s%s { fn drop(&mut self) {} }\n" % (g, t["name"], ga, where))
     src.append("fn main() {}\n")
     return "\n".join(src)
 
@@ -343,7 +418,7 @@ def shrink(types_one, tag, budget=12):
             if len(t["variants"]) > 1 and tries < budget:
                 cand = json.loads(json.dumps(t))
                 cand["variants"] = [x for x in cand["variants"] if x["name"] != v["name"]]
-                if not (cand["generic"] and not any(f["ty"] == "T" for x in cand["variants"] for f in x["fields"])):
+                if all(any(uses(f["ty"], q) for x in cand["variants"] for f in x["fields"]) for q in params(cand)):
                     tries += 1
                     bad, _ = run_types([cand], tag + "-shrink")
                     if bad:
@@ -357,9 +432,9 @@ def shrink(types_one, tag, budget=12):
                 cv = [x for x in cand["variants"] if x["name"] == v["name"]]
                 if not cv or i >= len(cv[0]["fields"]):
                     continue
-                if cv[0]["fields"][i]["ty"] == "T":
-                    continue
                 del cv[0]["fields"][i]
+                if not all(any(uses(f["ty"], q) for x in cand["variants"] for f in x["fields"]) for q in params(cand)):
+                    continue
                 tries += 1
                 bad, _ = run_types([cand], tag + "-shrink")
                 if bad:
@@ -377,7 +452,7 @@ def is_nontrivial(t):
 def run_check(pid, tier, seed, replay_path):
     """Entry point used by /verif/check. Returns (rc, report)."""
     t0 = time.time()
-    n_types, n_conf = (60, 20) if tier == "quick" else (600, 100)
+    n_types, n_conf = (150, 40) if tier == "quick" else (1500, 200)
     rng = random.Random(seed * 7919 + 18)
     types = [gen_type(rng, i) for i in range(n_types)]
     tag = "%s-%s" % (tier, seed)
@@ -413,7 +488,7 @@ def run_check(pid, tier, seed, replay_path):
     samples = []
     classes = {}
     for t in types:
-        k = ("enum" if t["enum"] else "struct") + ("-generic" if t["generic"] else "")
+        k = ("enum" if t["enum"] else "struct") + ("-generic" if params(t) else "") + ("-const" if "N" in params(t) else "") + ("-where" if params(t) and t.get("where") else "")
         classes[k] = classes.get(k, 0) + 1
         if is_nontrivial(t):
             hashes.append(int(hashlib.md5(json.dumps(t, sort_keys=True).encode()).hexdigest()[:12], 16))
